@@ -167,9 +167,25 @@ def SpecGridClass():
             return _Edges()
 
         # -- placement helpers: documented contracts (C37) ---------------------------
+        # -- edge look-ups by index: the real methods index the edge ARRAY of `axis` -----------
+        def _jnp_index(self, axis, i):
+            """jax array indexing with a python int: negative indices count from the end, anything
+            still out of range is CLAMPED (no error) -- so an index that belongs to another axis
+            silently reads the last edge"""
+            n = self.shape[axis]
+            return clamp(vite(i < 0, i + n + 1, i), 0, n)
+
+        def _np_index(self, axis, *idx):
+            """numpy indexing: negative indices count from the end, out of range raises IndexError
+            (one joint decision for all indices of a call keeps the number of paths down)"""
+            n = self.shape[axis]
+            if vor(*[vor(i < -(n + 1), i > n) for i in idx]):
+                raise IndexError(f"index out of bounds for axis 0 with size {n + 1}: {idx}")
+            return tuple(vite(i < 0, i + n + 1, i) for i in idx)
+
         def axis_extent(self, axis, bounds):
             lower, upper = bounds
-            return (upper - lower) * self.__dict__["_h"]
+            return self.edge(axis, self._jnp_index(axis, upper)) - self.edge(axis, self._jnp_index(axis, lower))
 
         def coord_to_index(self, axis, coord, snap="nearest"):
             if snap != "nearest":
@@ -198,6 +214,7 @@ def SpecGridClass():
 
         def anchor_coordinate(self, axis, bounds, position):
             lower, upper = bounds
+            lower, upper = self._np_index(axis, lower, upper)
             lo, up = self.edge(axis, lower), self.edge(axis, upper)
             return lo + HALF * (frac(position) + 1) * (up - lo)
 
@@ -225,6 +242,26 @@ def grid_stub_cases():
     from fdtdx.core.grid import UniformGrid
 
     out = []
+    # index look-ups on a NON-CUBIC grid, every axis, including indices that are out of range for
+    # the axis (jax clamps in axis_extent, numpy raises in anchor_coordinate)
+    shape = (4, 6, 9)
+    real = UniformGrid(spacing=1.0).resolve(shape)
+    spec = SpecGridClass()(shape, Fraction(1))
+    for ax in range(3):
+        for lo in range(-12, 13):
+            for up in range(-12, 13, 2):
+                r = real.axis_extent(ax, (lo, up))
+                s = spec.axis_extent(ax, (lo, up))
+                out.append((f"axis_extent(shape={shape},axis={ax},{lo},{up})", Fraction(r) == s, f"real {r} spec {s}"))
+                try:
+                    r = Fraction(real.anchor_coordinate(ax, (lo, up), 1))
+                except IndexError:
+                    r = "IndexError"
+                try:
+                    s = spec.anchor_coordinate(ax, (lo, up), 1)
+                except IndexError:
+                    s = "IndexError"
+                out.append((f"anchor_coordinate(shape={shape},axis={ax},{lo},{up})", r == s, f"real {r} spec {s}"))
     for n in (1, 2, 5, 8):
         real = UniformGrid(spacing=1.0).resolve((n, n, n))
         spec = SpecGridClass()((n, n, n), Fraction(1))
